@@ -92,6 +92,7 @@ func ops() []opT {
 			// its constructor stamped, the store must keep the real creation time (also on disk)
 			r := conformance.NewIntResource(hx.NS, "a", cur.Value()+10)
 			r.Metadata().SetVersion(cur.Metadata().Version())
+			r.Metadata().SetOwner(cur.Metadata().Owner()) //nolint:errcheck
 			r.Metadata().SetPhase(cur.Metadata().Phase())
 			for _, f := range *cur.Metadata().Finalizers() {
 				r.Metadata().Finalizers().Add(f)
